@@ -294,7 +294,26 @@ static Type parse_type(Stage1Parser *p) {
 */
 
 /* Parse type annotation with optional element_type output (for arrays) and type_param_name for generics */
+static Type parse_type_with_element_impl(Stage1Parser *p, Type *element_type_out, char **type_param_name_out, FunctionSignature **fn_sig_out, TypeInfo **type_info_out);
+
+/* Types nest by recursion (array<array<...>>, fn(fn(...)), generic arguments):
+ * every level counts against the parser's nesting limit. */
 static Type parse_type_with_element(Stage1Parser *p, Type *element_type_out, char **type_param_name_out, FunctionSignature **fn_sig_out, TypeInfo **type_info_out) {
+    p->recursion_depth++;
+    if (p->recursion_depth > MAX_RECURSION_DEPTH) {
+        Token *deep_tok = current_token(p);
+        parser_error(p, deep_tok ? deep_tok->line : 0, deep_tok ? deep_tok->column : 0,
+                "Error at line %d, column %d: Type nesting depth exceeded maximum (%d).\n",
+                deep_tok ? deep_tok->line : 0, deep_tok ? deep_tok->column : 0, MAX_RECURSION_DEPTH);
+        p->recursion_depth--;
+        return TYPE_UNKNOWN;
+    }
+    Type result = parse_type_with_element_impl(p, element_type_out, type_param_name_out, fn_sig_out, type_info_out);
+    p->recursion_depth--;
+    return result;
+}
+
+static Type parse_type_with_element_impl(Stage1Parser *p, Type *element_type_out, char **type_param_name_out, FunctionSignature **fn_sig_out, TypeInfo **type_info_out) {
     Type type = TYPE_UNKNOWN;
     Token *tok = current_token(p);
 
@@ -310,16 +329,7 @@ static Type parse_type_with_element(Stage1Parser *p, Type *element_type_out, cha
         
         case TOKEN_FN: {
             /* Function type: fn(type1, type2) -> return_type */
-            /* Function types nest by recursion: count them against the depth limit */
-            p->recursion_depth++;
-            if (p->recursion_depth > MAX_RECURSION_DEPTH) {
-                parser_error(p, tok->line, tok->column, "Error at line %d, column %d: Type nesting depth exceeded maximum (%d).\n",
-                        tok->line, tok->column, MAX_RECURSION_DEPTH);
-                p->recursion_depth--;
-                return TYPE_UNKNOWN;
-            }
             FunctionSignature *sig = parse_function_signature(p);
-            p->recursion_depth--;
             if (sig) {
                 if (fn_sig_out) {
                     *fn_sig_out = sig;
